@@ -170,7 +170,7 @@ func cmdCheck(args []string) int {
 		fmt.Printf("[%s] job %s: paths=%d steps=%d queries=%d solver=%.1fs unknown=%d wall=%.1fs (load %.1fs) ends=%v covers=%d/%d violations=%d\n",
 			id, j.Name, res.Paths, res.Steps, res.Queries, res.SolverTime.Seconds(), res.Unknown, res.Wall.Seconds(), res.LoadTime.Seconds(),
 			res.Ends, len(res.Covers), len(res.WantCovers), len(res.Violations))
-		for _, r := range dedupe(res.Inconcl) {
+		for _, r := range dedupeFirstLine(res.Inconcl) {
 			inconcl = append(inconcl, fmt.Sprintf("job %s: %s", j.Name, firstLine(r)))
 			fmt.Printf("[%s] job %s: INCONCLUSIVE: %s\n", id, j.Name, r)
 		}
@@ -268,6 +268,19 @@ func firstLine(s string) string {
 		return s[:i]
 	}
 	return s
+}
+
+func dedupeFirstLine(xs []string) []string {
+	seen := map[string]bool{}
+	var out []string
+	for _, x := range xs {
+		k := firstLine(x)
+		if !seen[k] {
+			seen[k] = true
+			out = append(out, x)
+		}
+	}
+	return out
 }
 
 func dedupe(xs []string) []string {
